@@ -14,11 +14,13 @@ echo "tests with change: $t"
 echo "$t" | grep -q "Fail: 0" || { echo "TESTS FAIL with change"; exit 1; }
 bash demo/run.sh >/tmp/seed/$id.with.log 2>&1; w=$?
 echo "demo with change: exit $w"
-git stash push -q -- src || exit 2
+# (no git stash: the stash is shared between all worktrees of one repository)
+git diff -- src > /tmp/seed/$id.current.diff
+git apply -R /tmp/seed/$id.current.diff || exit 2
 ninja -C _b >/dev/null 2>&1
 bash demo/run.sh >/tmp/seed/$id.without.log 2>&1; wo=$?
 echo "demo without change: exit $wo"
-git stash pop -q
+git apply /tmp/seed/$id.current.diff || exit 2
 ninja -C _b >/dev/null 2>&1
 if [ $w -ne 0 ] && [ $wo -eq 0 ]; then echo "CONFIRMED"; exit 0; fi
 echo "NOT CONFIRMED"; exit 1
